@@ -86,7 +86,11 @@ func (ka rsaKeyAgreement) generateClientKeyExchange(config *Config, clientHello 
 		return nil, nil, err
 	}
 
-	encrypted, err := rsa.EncryptPKCS1v15(config.rand(), cert.PublicKey.(*rsa.PublicKey), preMasterSecret)
+	pub, ok := cert.PublicKey.(*rsa.PublicKey)
+	if !ok {
+		return nil, nil, errors.New("tls: server's certificate contains an unsupported type of public key for an RSA key exchange")
+	}
+	encrypted, err := rsa.EncryptPKCS1v15(config.rand(), pub, preMasterSecret)
 	if err != nil {
 		return nil, nil, err
 	}
